@@ -997,7 +997,14 @@ class Executor:
                     sv = self.pure(s, v, cx)
                     vals.append(sv)
                     tv = self.truth(s, sv)
-                    s = s.copy(guards=s.guards + ((tv if is_and else z3.Not(tv)),))
+                    g_ = tv if is_and else z3.Not(tv)
+                    if v is not e.values[-1] and sv.ty.kind == 'bool' and isinstance(v, ast.Call) and isinstance(v.func, ast.Name) \
+                            and v.func.id == 'isinstance' and not self.feasible(s.assume(*s.guards), g_):
+                        # the remaining operands are never evaluated on this path: the result is decided already
+                        break
+                    s = s.copy(guards=s.guards + (g_,))
+                    if is_and:
+                        s = self.narrow(s, v, True)
             except NotPure:
                 vals = None
                 del self.obs[nobs:]
@@ -1299,7 +1306,14 @@ class Executor:
                 n1, n2 = self.list_len(st, a), self.list_len(st, b)
                 a1, a2 = self.list_arr(st, a), self.list_arr(st, b)
                 j = z3.Int('j!cat')
-                s2, r = self.new_list(st, ta, n1 + n2, z3.Lambda([j], z3.If(j < n1, z3.Select(a1, j), z3.Select(a2, j - n1))))
+                # the concatenation is a NAMED array with its pointwise definition (an instantiable axiom): as an argument
+                # of a spec function it is then one symbol, not a lambda term that simplification may rewrite
+                self.counter += 1
+                cat = z3.Const(f'cat!{self.counter}', a1.sort())
+                jq = z3.Int('j!catq')
+                st = st.assume(z3.ForAll([jq], z3.Select(cat, jq) == z3.If(jq < n1, self.select(a1, jq), self.select(a2, jq - n1)),
+                                         patterns=[z3.Select(cat, jq)]))
+                s2, r = self.new_list(st, ta, n1 + n2, cat)
                 return k(s2, r)
         if isinstance(op, ast.Mult) and (ta.kind == 'list' or tb.kind == 'list'):
             return self.bi.list_repeat(st, a, b, cx, node, k)
